@@ -178,6 +178,8 @@ def check(run, M, files):
     run.count("shared_helpers", n)
     base_contracts(run, M)
     jit_options(run, M)
+    shared_state(run, M)
+    late_binding(run, M)
 
 
 def base_contracts(run, M):
@@ -243,3 +245,98 @@ def jit_options(run, M):
             else:
                 run.ok("SJ", q, "`%s`" % ast.unparse(d)[:80], f.loc(d))
     run.count("jit_decorators", n)
+
+
+def _mutable_literal(v):
+    if isinstance(v, (ast.List, ast.Dict, ast.Set, ast.ListComp, ast.DictComp, ast.SetComp)):
+        return True
+    if isinstance(v, ast.Call):
+        nm = ast.unparse(v.func).split(".")[-1]
+        return nm in ("list", "dict", "set", "defaultdict", "OrderedDict", "zeros", "ones", "empty", "array", "zeros_like", "ones_like", "deque")
+    return False
+
+
+def shared_state(run, M):
+    """objects that outlive a call and are shared between calls or instances must not be written: a mutable default argument is created once
+    per function, a mutable class attribute once per class -- writing to either makes results depend on the history of calls"""
+    from ..effects import Effects
+    seen = _LAST_SEEN.get(id(M), set())
+    run.rule("SD", "no function this property's code reaches writes to one of its own mutable default arguments, and no method writes to a mutable class-level attribute "
+                   "(state shared between calls / instances)")
+    eff = None
+    n = 0
+    for q in sorted(seen):
+        f = M.funcs.get(q)
+        if f is None:
+            continue
+        muts = [p for p, d in f.defaults.items() if _mutable_literal(d)]
+        if muts:
+            eff = eff or Effects(M)
+            sm = eff.of(q)
+            for p in muts:
+                n += 1
+                hit = p in sm.mut
+                grows = any(isinstance(x, ast.Call) and isinstance(x.func, ast.Attribute) and isinstance(x.func.value, ast.Name) and x.func.value.id == p
+                            and x.func.attr in ("append", "extend", "update", "add", "setdefault", "insert", "pop", "clear", "remove") for x in ast.walk(f.node))
+                run.check(not (hit or grows), "SD", "%s default `%s`" % (q, p), f.loc(), "mutable default is only read",
+                          "%s writes to its default argument `%s=%s`: the object is created once, so what one call stores is seen by every later call" % (
+                              q, p, ast.unparse(f.defaults[p])), stmt="SD:%s:%s" % (q, p))
+    for cq, c in sorted(M.classes.items()):
+        if not any(m.qual in seen for m in c.methods.values()):
+            continue
+        shared = {}
+        for b in c.node.body:
+            if isinstance(b, ast.Assign) and len(b.targets) == 1 and isinstance(b.targets[0], ast.Name) and _mutable_literal(b.value):
+                shared[b.targets[0].id] = b
+        if not shared:
+            continue
+        eff = eff or Effects(M)
+        for a, node in shared.items():
+            n += 1
+            writers = []
+            for m in c.methods.values():
+                sm = eff.of(m.qual)
+                rebinds = any(isinstance(x, ast.Assign) and any(isinstance(t, ast.Attribute) and isinstance(t.value, ast.Name) and t.value.id == "self" and t.attr == a
+                                                                  for t in x.targets) for x in ast.walk(m.node))
+                if a in sm.attr_mut and not rebinds:
+                    writers.append(m.name)
+            run.check(not writers, "SD", "%s.%s" % (cq, a), c.mod.path, "class-level container is not written through instances",
+                      "%s defines the mutable class attribute `%s = %s` and %s write(s) into it through self: all instances share one object" % (
+                          cq, a, ast.unparse(node.value)[:60], ", ".join(writers)), stmt="SD:%s:%s" % (cq, a))
+    run.count("shared_mutable_objects", n)
+
+
+def late_binding(run, M):
+    """a lambda / nested function created inside a loop sees the loop variable by reference: every closure made by the loop reads the value of
+    the LAST iteration when it is called later.  (Binding the value through a default argument, `lambda x, i=i: ...`, is the idiom that avoids it.)"""
+    seen = _LAST_SEEN.get(id(M), set())
+    run.rule("SL", "no closure created inside a loop (or comprehension) of the code this property reaches reads that loop's variable as a free name")
+    n = 0
+    for q in sorted(seen):
+        f = M.funcs.get(q)
+        if f is None or f.parent is not None:
+            continue
+        for loop in ast.walk(f.node):
+            if isinstance(loop, ast.For):
+                tnames = {x.id for x in ast.walk(loop.target) if isinstance(x, ast.Name)}
+                body = loop.body
+            elif isinstance(loop, (ast.ListComp, ast.GeneratorExp, ast.SetComp, ast.DictComp)):
+                tnames = {x.id for g in loop.generators for x in ast.walk(g.target) if isinstance(x, ast.Name)}
+                body = [loop.elt] if not isinstance(loop, ast.DictComp) else [loop.key, loop.value]
+            else:
+                continue
+            tnames |= {t.id for b in body for s_ in ast.walk(b) if isinstance(s_, ast.Assign) for t in s_.targets if isinstance(t, ast.Name)}
+            for b in body:
+                for x in ast.walk(b):
+                    if not isinstance(x, (ast.Lambda, ast.FunctionDef)):
+                        continue
+                    n += 1
+                    params = {a.arg for a in x.args.args + x.args.kwonlyargs + x.args.posonlyargs}
+                    inner = x.body if isinstance(x.body, list) else [x.body]
+                    free = {y.id for i_ in inner for y in ast.walk(i_) if isinstance(y, ast.Name) and isinstance(y.ctx, ast.Load)} - params
+                    local = {y.id for i_ in inner for y in ast.walk(i_) if isinstance(y, ast.Name) and isinstance(y.ctx, ast.Store)}
+                    captured = sorted((free - local) & tnames)
+                    run.check(not captured, "SL", "%s closure at line %d" % (q, x.lineno), f.loc(x), "binds the loop's values (default arguments) or does not use them",
+                              "%s creates a closure inside a loop that reads the loop variable(s) %s as free names (`%s`): when the closure is called after the loop it sees "
+                              "the values of the last iteration" % (q, captured, ast.unparse(x)[:100]), stmt="SL:%s:%d" % (q, x.lineno))
+    run.count("closures_in_loops", n)
